@@ -692,7 +692,8 @@ def field_name_index(field_name_to_look_up, available_field_names, location):
       not part of ``available_field_names``
     """
     assert field_name_to_look_up is not None
-    assert field_name_to_look_up == field_name_to_look_up.strip()
+    # Note: the name can still include white space, for example a no-break space that Python's tokenizer takes for a
+    # part of the name; it is removed below.
     assert available_field_names
 
     field_name_to_look_up = field_name_to_look_up.strip()
